@@ -61,6 +61,7 @@ func docFor(id string, ver int) map[string]interface{} {
 		"title": fmt.Sprintf("%s v%d %s", id, ver, vocab[h%len(vocab)]),
 		"n":     float64(ver % 7),
 		"tag":   []string{"t" + strconv.Itoa(ver%3), "u" + strconv.Itoa(h%2)},
+		"key":   "k" + id,
 	}
 }
 
@@ -77,7 +78,11 @@ func buildMapping() mapping.IndexMapping {
 	kw := bleve.NewTextFieldMapping()
 	kw.Analyzer = keyword.Name
 	kw.Store = true
+	// no term vectors: merged segments then use the compact "1-hit" posting encoding
+	// for a term that sits in exactly one of their documents
+	kw.IncludeTermVectors = false
 	dm.AddFieldMappingsAt("tag", kw)
+	dm.AddFieldMappingsAt("key", kw)
 	m.DefaultMapping = dm
 	return m
 }
@@ -205,6 +210,10 @@ func battery() []request {
 		// terms that sit in exactly one document (merged segments encode them specially)
 		{"conj 1-hit c score:none", mk(bleve.NewConjunctionQuery(tq("title", "c"), tq("tag", "u1")), []string{"_id"}, func(r *bleve.SearchRequest) { r.Score = "none" })},
 		{"conj 1-hit e score:none", mk(bleve.NewConjunctionQuery(tq("title", "e"), tq("tag", "u1")), []string{"_id"}, func(r *bleve.SearchRequest) { r.Score = "none" })},
+		{"conj tags t0 u1 score:none", mk(bleve.NewConjunctionQuery(tq("tag", "t0"), tq("tag", "u1")), []string{"_id"}, func(r *bleve.SearchRequest) { r.Score = "none" })},
+		{"conj tags t2 u0 score:none", mk(bleve.NewConjunctionQuery(tq("tag", "t2"), tq("tag", "u0")), []string{"_id"}, func(r *bleve.SearchRequest) { r.Score = "none" })},
+		{"disj keys score:none", mk(bleve.NewDisjunctionQuery(tq("key", "ka"), tq("key", "kc"), tq("key", "kf"), tq("tag", "t1")), []string{"_id"}, func(r *bleve.SearchRequest) { r.Score = "none" })},
+		{"disj keys only score:none", mk(bleve.NewDisjunctionQuery(tq("key", "kb"), tq("key", "kd"), tq("key", "kg"), tq("key", "kh")), []string{"_id"}, func(r *bleve.SearchRequest) { r.Score = "none" })},
 		{"disj 1-hit score:none", mk(bleve.NewDisjunctionQuery(tq("title", "d"), tq("title", "f"), tq("tag", "t0")), []string{"_id"}, func(r *bleve.SearchRequest) { r.Score = "none" })},
 	}
 }
@@ -221,7 +230,11 @@ func answers(idx bleve.Index, h int, layout string) ([]any, error) {
 	for i, rq := range battery() {
 		res, err := idx.Search(rq.Req())
 		if err != nil {
-			return nil, fmt.Errorf("%s: %v", rq.Name, err)
+			// a request that fails on this layout: that IS its answer here (compared
+			// with the answer of the first layout like any other)
+			out = append(out, map[string]any{"h": h, "layout": layout, "req": i, "reqname": rq.Name, "ids": []any{"<search error>"}, "scores": []any{},
+				"total": -1, "extras": []any{err.Error()}, "facets": "", "maxscore": ""})
+			continue
 		}
 		ids, scores, extras := []any{}, []any{}, []any{}
 		for _, hit := range res.Hits {
@@ -508,7 +521,7 @@ func layouts(c *core.Ctx) []layout {
 }
 
 func run(c *core.Ctx) error {
-	c.SetRule("one evaluation = one request of the battery (14 requests: match, phrase+highlight+locations, conj(term, bool(must, should)), bool must/should/must-not, disjunction min 2, numeric range + numeric sort + fields, match_all + terms/numeric facets + paging, prefix, score:none) sent to one layout of one TLC-generated history; " +
+	c.SetRule("one evaluation = one request of the battery (18 requests: match, phrase+highlight+locations, conj(term, bool(must, should)), bool must/should/must-not, disjunction min 2, numeric range + numeric sort + fields, match_all + terms/numeric facets + paging, prefix, score:none) sent to one layout of one TLC-generated history; " +
 		"distinct_nontrivial = distinct (history, request) whose answer has at least one hit and that was compared across >= 2 layouts")
 	c.Assume("sorts are made total by appending _id (natural-order tie-breaking legitimately depends on layout)")
 	mcfg := "Index_mc_quick.cfg"
